@@ -18,7 +18,8 @@ PID = "C14"
 EXT, EXP = 1, 2
 HEADER = "From TV Require Import Base Model.Wiring Model.Sim Model.Ledger."
 REASONS = {151: "pending-tasks-differ-from-ledger-or-grow-with-run-length", 152: "armed-timers-grow-with-run-length",
-           153: "wakeup-entries-exceed-components", 154: "tcp-handler-retains-reply-tasks"}
+           153: "wakeup-entries-exceed-components", 154: "tcp-handler-retains-reply-tasks",
+           155: "finished-tasks-are-retained-and-grow-with-run-length", 156: "scheduler-bookkeeping-grows-with-run-length"}
 
 
 def run_counting(cfg, devs, t_end, stim):
@@ -67,6 +68,11 @@ def run_counting(cfg, devs, t_end, stim):
                 res["tasks"] = len(tasks)
                 res["timers"] = len([h for h in lp._scheduled if not h._cancelled])
                 res["wakeups"] = len(counts["sched"].wakeups)
+                # ... and what is merely retained: Task objects that are still referenced from somewhere (finished ones
+                # included), and the entries of every container the schedulers / tickers / components hold as attributes
+                gc.collect()
+                res["task_objects"] = sum(1 for o in gc.get_objects() if isinstance(o, asyncio.Task))
+                res["bookkeeping"] = bookkeeping([counts["sched"]] + list(slevel.REG.values()))
         return hook
 
     def on_start2(loop, sched):
@@ -82,6 +88,28 @@ def run_counting(cfg, devs, t_end, stim):
     res["ticks"] = len(r["mticks"])
     res["error"] = r["error"] or (r["errors"][:1] or None)
     return res
+
+
+def bookkeeping(roots):
+    """number of entries of the containers held (as attributes, one level of nesting) by the schedulers, their tickers and
+    event routers, and the components"""
+    import collections
+    seen, todo, total = set(), list(roots), 0
+    sized = (dict, list, set, frozenset, tuple, collections.deque)
+    while todo:
+        o = todo.pop()
+        if id(o) in seen:
+            continue
+        seen.add(id(o))
+        for name, v in list(getattr(o, "__dict__", {}).items()):
+            if isinstance(v, sized):
+                total += len(v)
+                for x in (v.values() if isinstance(v, dict) else v):
+                    if isinstance(x, sized):
+                        total += len(x)
+            elif type(v).__module__.startswith("tickit.") and not isinstance(v, type):
+                todo.append(v)          # the ticker of a scheduler, the scheduler of a system simulation, the event router ...
+    return total
 
 
 def tcp_counts(n, streaming=False, watch=False, failing=False):
@@ -187,6 +215,7 @@ def main(tier, seed):
     ck = Check(PID, tier, seed, "Props.C14", ["Model/Ledger.v", "Proofs/LedgerP.v", "Props/C14.v"])
     ck.build_and_audit()
     rng = random.Random(seed)
+    slevel.MAX_WALL = 1200.0       # runs of thousands of ticks are this check's subject
     configs = [
         ({1: dict(order=[(3, "dev"), (4, "dev")], conns=[(3, 1, 4, 1)])}, {3: (3, 20_000_000, 1), 4: (3, 30_000_000, 1)}),
         ({1: dict(order=[(3, "dev"), (4, 2), (7, "dev")], conns=[(3, 1, 4, 1), (4, 1, 7, 1)]),
@@ -199,6 +228,9 @@ def main(tier, seed):
     ]
     # a callback that lies an hour ahead while interrupts keep cutting the master's sleep short
     configs.append(({1: dict(order=[(3, "dev"), (4, "dev")], conns=[(3, 1, 4, 1)])}, {3: (3, 3_600_000_000_000, 2), 4: (3, 30_000_000, 0)}))
+    # a time-out an hour ahead that every interrupt of the device re-arms (its pending wakeup is replaced again and again
+    # before it is ever due) next to a device with near periodic callbacks
+    configs.append(({1: dict(order=[(3, "dev"), (4, "dev")], conns=[])}, {3: (3, 3_600_000_000_000, 1), 4: (3, 30_000_000, 1)}))
     # purely interrupt-driven: no component ever asks for a callback, the master idles between interrupts
     configs.append(({1: dict(order=[(3, "dev"), (4, "dev")], conns=[(3, 1, 4, 1)])}, {3: (3, 20_000_000, 0), 4: (3, 30_000_000, 0)}))
     for _ in range({"quick": 2, "thorough": 20}[tier]):
@@ -223,6 +255,12 @@ def main(tier, seed):
         ck.count(json.dumps(sprops.describe(dict(c, speed=(1, 1), initial=0, stim=[]))), slevel.depth_of(c["cfg"]) > 1)
         if any(x["error"] for x in c["counts"]):
             bad.setdefault(i, []).append(151)
+        # retained but not pending: must not grow with the length of the run either
+        cs = c["counts"]
+        for key, code in (("task_objects", 155), ("bookkeeping", 156)):
+            v = [x.get(key) for x in cs]
+            if None not in v and v[2] > v[0] + 8 and v[2] > v[1] > v[0]:
+                bad.setdefault(i, []).append(code)
     tcp = [tcp_counts(n) for n in (N, 2 * N, 4 * N)]
     tcp_s = [tcp_counts(n, streaming=True) for n in (N, 2 * N, 4 * N)]
     tcp_w = [tcp_counts(n, watch=True) for n in (N, 2 * N, 4 * N)]
@@ -244,7 +282,8 @@ def main(tier, seed):
             c = cases[i]
             d = sprops.describe(dict(c, speed=(1, 1), initial=0, stim=[]))
             d.update(kind="counts", counts=c["counts"], codes=bad[i])
-            ck.report(REASONS[code], f"resource counts over runs of N, 2N, 4N ticks: {[(x['ticks'], x['tasks'], x['timers']) for x in c['counts']]}: {REASONS[code]}", d)
+            ck.report(REASONS[code], f"resource counts over runs of N, 2N, 4N ticks (ticks, pending tasks, timers, Task objects alive, container entries): "
+                                     f"{[(x['ticks'], x['tasks'], x['timers'], x.get('task_objects'), x.get('bookkeeping')) for x in c['counts']]}: {REASONS[code]}", d)
     for name, tc in (("", tcp), (" with a never-ending on_connect readback", tcp_s),
                      (" whose first command is answered by a never-ending readback", tcp_w),
                      (" every message of which is answered by a reply stream that raises", tcp_f)):
